@@ -313,8 +313,8 @@ def forged(w):
             fuc=[F + 'check_block_signatures', F + 'calculate_node_id_short'], assumes=[T6],
             descr='a validator list in which one public key occurs in TWO entries [K0:w0, K1:w1, K0:w2] (weights symbolic), valid signatures by '
                   'the given keys: the total is the weight of ALL entries; a signature stands for ONE entry of its key - accepted only if '
-                  '3 * (sum over signing keys of the LARGEST entry of that key) > 2 * total, and always accepted if 3 * (sum of the SMALLEST '
-                  'entries) > 2 * total (whichever entry an implementation attributes the signature to)')
+                  '3 * (sum over signing keys of the LARGEST entry of that key) > 2 * total (whichever entry an implementation attributes the '
+                  'signature to; refusing such a list outright is not excluded)')
 def duplicate_keys(w, sigs):
     M = importlib.import_module('pytoniq_core.proof.check_proof')
     ws = [w.int(f'w{i}', 0, 1 << 64) for i in range(3)]
@@ -342,5 +342,5 @@ def duplicate_keys(w, sigs):
         w.claim('accepted only if the signing entries can hold MORE than 2/3 of the weight of ALL entries', 3 * s_hi > 2 * total)
     else:
         w.cover('rejected')
-        w.claim('never rejected when even the smallest entries of the signing keys exceed 2/3 of the total', w.Not(3 * s_lo > 2 * total))
+        # (whether a list with a repeated key may be refused outright is not decided here: only the accepting direction is claimed)
         w.claim(f'rejection is an API error ({type(out).__name__})', is_error(out))
